@@ -15,7 +15,7 @@ Local Open Scope N_scope.
 (* closing-event classes of the driver (harness/cmd/wsdrv/scen.go) *)
 Inductive skind :=
   | KNone | KLocal | KPeerClose | KEof | KBadFrame | KReadFault | KWriteFault | KSlowFail
-  | KFullLocal | KLocalPeer | KLocalWrite | KLocalEof.
+  | KFullLocal | KLocalPeer | KLocalWrite | KLocalEof | KSlowLocal.
 
 Record wcall := mkW { wc_g : N; wc_i : N; wc_start : N; wc_end : N; wc_res : N }.  (* res: 0 nil, 1 error, 2 panic, 3 never returned *)
 
@@ -34,9 +34,33 @@ Record ws_case := mkCase {
   c_crash : bool                 (* the child process died inside this scenario *)
 }.
 
+(* compact form written by the driver: the variable-length parts as byte strings (a long
+   Gallina list literal of records is very slow to parse).  calls: g(2) i(2) start(2) end(2)
+   res(1) per call, big endian; wire: g(2) i(2) per frame; events: 1 byte; delivered: 2 bytes *)
+Fixpoint dec_calls (b : bytes) : list wcall :=
+  match b with
+  | g1 :: g2 :: i1 :: i2 :: s1 :: s2 :: e1 :: e2 :: r :: rest =>
+      mkW (g1 * 256 + g2) (i1 * 256 + i2) (s1 * 256 + s2) (e1 * 256 + e2) r :: dec_calls rest
+  | _ => []
+  end.
+Fixpoint dec_wire (b : bytes) : list (N * N) :=
+  match b with
+  | g1 :: g2 :: i1 :: i2 :: rest => (g1 * 256 + g2, i1 * 256 + i2) :: dec_wire rest
+  | _ => []
+  end.
+Fixpoint dec_u16 (b : bytes) : list N :=
+  match b with
+  | x1 :: x2 :: rest => (x1 * 256 + x2) :: dec_u16 rest
+  | _ => []
+  end.
+Definition mkCaseS (k : skind) (reason react out inc : bool) (nin : N) (calls : bytes) (closed_seq : N) (wire : bytes)
+    (foreign : N) (events delivered : bytes) (closed closed_err conn_close exited loc peer fault crash : bool) : ws_case :=
+  mkCase k reason react out inc nin (dec_calls calls) closed_seq (dec_wire wire) foreign events (dec_u16 delivered)
+         closed closed_err conn_close exited loc peer fault crash.
+
 (* ------------------------------------------------------------------ scenario class -> model configuration *)
 Definition has_local (k : skind) : bool :=
-  match k with KLocal | KFullLocal | KLocalPeer | KLocalWrite | KLocalEof => true | _ => false end.
+  match k with KLocal | KFullLocal | KLocalPeer | KLocalWrite | KLocalEof | KSlowLocal => true | _ => false end.
 Definition has_rfail (k : skind) : bool :=
   match k with KPeerClose | KEof | KBadFrame | KReadFault | KLocalPeer | KLocalEof => true | _ => false end.
 Definition has_wfail (k : skind) : bool :=
@@ -70,7 +94,7 @@ Definition outcomes (V : variant) (c : config) : list N :=
   else [].
 
 Definition all_kinds : list skind :=
-  [KNone; KLocal; KPeerClose; KEof; KBadFrame; KReadFault; KWriteFault; KSlowFail; KFullLocal; KLocalPeer; KLocalWrite; KLocalEof].
+  [KNone; KLocal; KPeerClose; KEof; KBadFrame; KReadFault; KWriteFault; KSlowFail; KFullLocal; KLocalPeer; KLocalWrite; KLocalEof; KSlowLocal].
 
 Definition class_cfgs : list config :=
   let all := flat_map (fun k => flat_map (fun r => map (fun a => cfg_of k r a) [false; true]) [false; true]) all_kinds in
